@@ -750,6 +750,10 @@ class Instance:
         }
 
 
+class RuleTimeout(BaseException):
+    """a rule used up its time budget (not an Exception: no handler of the evaluator may swallow it)"""
+
+
 class Ctx:
     """Collects rule instances for one property run."""
 
@@ -784,10 +788,29 @@ class Ctx:
         from . import fold as _fold
 
         _fold.PROCESS_STATE.clear()  # every rule evaluates in a fresh "process": module-level mutable objects start over
+        import signal
+        import threading
+
+        budget = int(os.environ.get("SA_RULE_SECONDS", "900" if self.tier == "thorough" else "420"))
+        armed = threading.current_thread() is threading.main_thread() and hasattr(signal, "SIGALRM")
+
+        def _expired(_sig: Any, _frm: Any) -> None:
+            signal.alarm(5)  # (should a handler on the way swallow it, it comes again)
+            raise RuleTimeout()
+
+        if armed:
+            old_handler = signal.signal(signal.SIGALRM, _expired)
+            signal.alarm(budget)
         try:
             rule_fn(*args)
         except AnalysisError as ex:
             self.errors.append("%s: %s" % (getattr(rule_fn, "__name__", "rule"), ex))
+        except RuleTimeout:
+            self.errors.append("%s: no result within %d s (an exploration that does not converge on this tree)" % (getattr(rule_fn, "__name__", "rule"), budget))
+        finally:
+            if armed:
+                signal.alarm(0)
+                signal.signal(signal.SIGALRM, old_handler)
 
     def skip_rule(self, rid: str, reason: str, covered_by: str) -> None:
         """a rule whose analysis cannot be instantiated on this tree while another rule of the property, which decides the same
